@@ -276,7 +276,7 @@ func (c *Ctx) c08Backend(b BK) {
 			if strings.HasSuffix(m, ".Write") {
 				n := 0
 				for _, ev := range p.Events {
-					if b.Sharded && isShardData(ev) && ev.Kind == pw.EvMapInsert || !b.Sharded && syncMapOp(ev) == "Store" {
+					if b.Sharded && isShardData(ev) && ev.Kind == pw.EvMapInsert || !b.Sharded && isSyncStore(p, ev) {
 						n++
 					}
 				}
